@@ -19,12 +19,16 @@ def tok_expr(g, i, lang):
     return t['name']
 
 
-def go_action(idx, r):
+def go_action(idx, r, plain=False):
+    if plain:
+        return '{ $$ = (%s) %% %d }' % (' + '.join(['%d*$%d' % (r['coef'][j], j + 1) for j in range(len(r['rhs'])) if r['coef'][j] != 0] + [str(r['c'])]), gram.MOD)
     expr = ' + '.join(['%d*$%d' % (r['coef'][j], j + 1) for j in range(len(r['rhs'])) if r['coef'][j] != 0] + [str(r['c'])])
-    return '{ Reds = append(Reds, %d*1000+Fetched); if len(Reds) > %d { panic("STEPLIMIT") }; $$ = (%s) %% %d }' % (idx + 1, LIMIT, expr, gram.MOD)
+    return '{ Reds = append(Reds, %d*1000+Fetched); if len(Reds) > %d { panic("STEPLIMIT") }; nestHookR(); $$ = (%s) %% %d }' % (idx + 1, LIMIT, expr, gram.MOD)
 
 
-def ts_action(idx, r):
+def ts_action(idx, r, plain=False):
+    if plain:
+        return '{ $$ = (%s) %% %d }' % (' + '.join(['%d*$%d' % (r['coef'][j], j + 1) for j in range(len(r['rhs'])) if r['coef'][j] != 0] + [str(r['c'])]), gram.MOD)
     expr = ' + '.join(['%d*$%d' % (r['coef'][j], j + 1) for j in range(len(r['rhs'])) if r['coef'][j] != 0] + [str(r['c'])])
     return '{ Reds.push(%d*1000+Fetched); if (Reds.length > %d) { throw new Error("STEPLIMIT") }; $$ = (%s) %% %d }' % (idx + 1, LIMIT, expr, gram.MOD)
 
@@ -61,6 +65,15 @@ var Fetched int
 var NestAt int = -1
 var NestInput string
 var NestResult string
+var NestAtR int = -1
+func nestHookR() {
+	if len(Reds) == NestAtR {
+		NestAtR = -1
+		sr, sf := Reds, Fetched
+		NestResult = runNested(NestInput)
+		Reds, Fetched = sr, sf
+	}
+}
 func GetToken(input string, valTy *ValType, pos *int) int {
 	Fetched++
 	if Fetched == NestAt {
@@ -102,6 +115,14 @@ func Run(mode string, input string) string {
 		out := []string{}
 		for _, in := range strings.Split(input, ",") { out = append(out, RunShared(in)) }
 		return strings.Join(out, " ; ")
+	case "nestr":
+		f := strings.Split(input, ",")
+		fmt.Sscan(f[2], &NestAtR)
+		NestInput = f[1]
+		NestResult = "-"
+		outer := RunShared(f[0])
+		NestAtR = -1
+		return outer + " ; " + NestResult
 	case "nest":
 		f := strings.Split(input, ",")
 		fmt.Sscan(f[2], &NestAt)
@@ -164,14 +185,14 @@ def go_text(g, pkg, obj):
     cases = ''.join('\tcase %d:\n\t\tvalTy.%s = zzx\n\t\treturn %s\n' % (i, t['tag'], tok_expr(g, i, 'go')) for i, t in enumerate(g['terms']))
     epi = GO_EPI % dict(cases=cases, starttag=g['nonterms'][g['start']]['tag'], modefuncs=GO_OBJECT if obj else GO_GLOBAL)
     head = '%{\npackage ' + pkg + '\nimport "fmt"\nimport "strings"\n%}\n%union {\n v0 int\n v1 int\n v2 int\n}\n'
-    return head + decl_block(g, 'go') + '%%\n' + gram.render_rules(g, go_action) + '%%\n' + epi
+    return head + decl_block(g, 'go') + '%%\n' + gram.render_rules(g, (lambda i, r: go_action(i, r, True)) if g.get('plain_actions') else go_action) + '%%\n' + epi
 
 
 def ts_text(g, jobs):
     cases = ''.join('\tcase %d:\n\t\tmodel.ValType.%s = zzx;\n\t\treturn %s;\n' % (i, t['tag'], tok_expr(g, i, 'ts')) for i, t in enumerate(g['terms']))
     epi = TS_EPI % dict(cases=cases, starttag=g['nonterms'][g['start']]['tag'], jobs=json.dumps(jobs))
     head = '%{\n"use strict";\n%}\n%union {\n v0 :number = 0;\n v1 :number = 0;\n v2 :number = 0;\n}\n'
-    return head + decl_block(g, 'ts') + '%%\n' + gram.render_rules(g, ts_action) + '%%\n' + epi
+    return head + decl_block(g, 'ts') + '%%\n' + gram.render_rules(g, (lambda i, r: ts_action(i, r, True)) if g.get('plain_actions') else ts_action) + '%%\n' + epi
 
 
 def enc(inp):
@@ -297,7 +318,7 @@ def run_i6(name, grammars, jobs, variants=ALL_VARIANTS, vet=False, race=False):
         if p in compile_fail:
             continue
         for (m, payload) in jobs.get(gname, []):
-            if m == 'nest' and vn not in ('op', 'ou'):
+            if m in ('nest', 'nestr') and vn not in ('op', 'ou'):
                 continue
             lines.append('%s\t%s\t%s' % (p, m, payload))
     res = {gname: {vn: {} for vn in variants} for (gname, _) in grammars}
